@@ -193,22 +193,30 @@ type SessionOpts struct {
 	CloseAtEnd  bool
 	Fault       func(d *simdisk.Disk) // optional: configure fault injection before Open
 	MaxSteps    int
+	Sys         *Sys                                              // run on this (already mounted, e.g. real-filesystem) system instead of mounting st
+	AfterStep   func(i int, op Op, err error, s *Sys) []Violation // extra per-step oracle (i = 0 for Open)
 }
 
 // RunSession mounts st, opens the WAL, checks the recovery oracle, applies ops.
 func RunSession(st *simdisk.State, cfg Config, ops []Op, so SessionOpts) *SessionResult {
-	sys := Mount(st, cfg)
-	defer sys.Unmount()
+	sys := so.Sys
+	if sys == nil {
+		sys = Mount(st, cfg)
+		defer sys.Unmount()
+	}
 	r := &SessionResult{Disk: sys.Disk}
-	if so.Fault != nil {
+	if so.Fault != nil && sys.Disk != nil {
 		so.Fault(sys.Disk)
 	}
+	d := &markDisk{sys.Disk}
 	body := func() {
-		d := sys.Disk
 		d.Mark(simdisk.OpCall, 0, "open")
 		err := sys.Open()
 		d.Mark(simdisk.OpAck, 0, fmt.Sprint(err))
 		vsched.Quiesce()
+		if so.AfterStep != nil {
+			r.Viol = append(r.Viol, so.AfterStep(0, Op{K: "open"}, err, sys)...)
+		}
 		if err != nil {
 			r.OpenErr = err
 			r.OpenObs = &Obs{OpenErr: err.Error()}
@@ -232,7 +240,7 @@ func RunSession(st *simdisk.State, cfg Config, ops []Op, so SessionOpts) *Sessio
 		if so.Legal != nil {
 			r.Viol = append(r.Viol, CheckRecovery(o, so.Legal, so.Inflight)...)
 		}
-		if raw, _ := d.MetaLoad(); true {
+		if raw := sys.MetaRaw(); true {
 			if exp, err := ExpectedListing(raw); err == nil {
 				if !sameStrings(exp, o.Listing) {
 					r.Viol = append(r.Viol, Violation{Prop: "C13", Msg: fmt.Sprintf("directory after Open holds %v, metadata lists %v", o.Listing, exp)})
@@ -252,6 +260,9 @@ func RunSession(st *simdisk.State, cfg Config, ops []Op, so SessionOpts) *Sessio
 			d.Mark(simdisk.OpAck, i+1, fmt.Sprint(err))
 			vsched.Quiesce()
 			r.Errs = append(r.Errs, err)
+			if so.AfterStep != nil {
+				r.Viol = append(r.Viol, so.AfterStep(i+1, op, err, sys)...)
+			}
 			if reject && err == nil {
 				r.Viol = append(r.Viol, Violation{Prop: so.CmpProp, Msg: fmt.Sprintf("op %d %s must be rejected but returned nil", i+1, op)})
 			}
@@ -278,7 +289,7 @@ func RunSession(st *simdisk.State, cfg Config, ops []Op, so SessionOpts) *Sessio
 					v.Msg = fmt.Sprintf("after op %d %s: %s", i+1, op, v.Msg)
 					r.Viol = append(r.Viol, v)
 				}
-				if raw, _ := d.MetaLoad(); true {
+				if raw := sys.MetaRaw(); true {
 					if exp, err := ExpectedListing(raw); err == nil && !sameStrings(exp, ob.Listing) {
 						r.Viol = append(r.Viol, Violation{Prop: "C13", Msg: fmt.Sprintf("after op %d %s: directory holds %v, metadata lists %v", i+1, op, ob.Listing, exp)})
 					}
@@ -286,8 +297,8 @@ func RunSession(st *simdisk.State, cfg Config, ops []Op, so SessionOpts) *Sessio
 			}
 		}
 		r.LogLen = d.LogLen()
-		if len(d.CreateExist) > 0 {
-			r.Viol = append(r.Viol, Violation{Prop: "C13", Msg: fmt.Sprintf("segment creation collided with an existing file: %v", d.CreateExist)})
+		if sys.Disk != nil && len(sys.Disk.CreateExist) > 0 {
+			r.Viol = append(r.Viol, Violation{Prop: "C13", Msg: fmt.Sprintf("segment creation collided with an existing file: %v", sys.Disk.CreateExist)})
 		}
 		if so.CloseAtEnd && sys.W != nil {
 			if err := sys.W.Close(); err != nil {
@@ -308,9 +319,25 @@ func RunSession(st *simdisk.State, cfg Config, ops []Op, so SessionOpts) *Sessio
 		r.Viol = append(r.Viol, Violation{Prop: "HANG", Msg: "step limit reached"})
 	}
 	if r.LogLen == 0 {
-		r.LogLen = sys.Disk.LogLen()
+		r.LogLen = d.LogLen()
 	}
 	return r
+}
+
+// markDisk forwards markers to the simulated disk, if there is one.
+type markDisk struct{ d *simdisk.Disk }
+
+func (m *markDisk) Mark(k simdisk.OpKind, call int, note string) {
+	if m.d != nil {
+		m.d.Mark(k, call, note)
+	}
+}
+
+func (m *markDisk) LogLen() int {
+	if m.d == nil {
+		return 0
+	}
+	return m.d.LogLen()
 }
 
 func trimStack(s string) string {
